@@ -7,11 +7,26 @@ Correspondence (local step): the implementation's own *unsmoothed* public values
 `smooth2` / `smooth1`; the result is compared with the implementation's smoothed public
 values.  Because the theorems of Props/C20.v say the model IS the trailing mean, every
 disagreement is a concrete failing input for the property.
+
+Three partitions per case, each built from a pristine deep copy of the response / transforms:
+  A0  no transforms, only unsmoothed outputs are read;
+  A   the case's transforms (smoother), only unsmoothed outputs are read - the FRESH partition whose
+      unsmoothed values feed the model;
+  B   the case's transforms, smoothed AND unsmoothed outputs are read on the ONE object in a seeded
+      order (case["read_order"]: smoothed first / unsmoothed first / shuffled), then all re-read.
+Oracles on the implementation alone (aliasing between smoothed and unsmoothed outputs): whatever the
+order, B's unsmoothed outputs equal A's (reading smoothed_columns_scale_mean or any smoothed_*
+before column_proportions must not change what column_proportions reports), A's equal A0's (a
+smoother spec does not touch the unsmoothed measures) and a second read of B returns what the first
+returned.  Since B's smoothed values are compared with the trailing mean of A's unsmoothed values,
+an in-place overwrite of the unsmoothed measure cannot hide behind a consistent-looking B.
 """
 import copy
 import json
 import random
 from fractions import Fraction
+
+import numpy as np
 
 from harness import core, gen, impl
 from harness.core import g_bool, g_mat, g_opt, g_vec, g_Z
@@ -64,9 +79,46 @@ def gen_case(rng, k):
         del sm["function"]
     dim_key = "rows_dimension" if strand else "columns_dimension"
     transforms = {dim_key: {"smoother": sm}}
+    mode, order = read_order(rng, strand, with_mean)
     return {"k": k, "strand": strand, "cat_date": cat_date and n_periods > 0,
             "response": resp, "transforms": transforms, "window": raw,
-            "n_periods": n_periods, "with_mean": with_mean}
+            "n_periods": n_periods, "with_mean": with_mean,
+            "read_mode": mode, "read_order": order}
+
+
+def output_names(strand, with_mean):
+    """(unsmoothed, smoothed) public outputs read on the one partition B"""
+    if strand:
+        return ["means"], ["smoothed_means"]
+    uns = ["column_proportions", "column_percentages", "column_index", "columns_scale_mean",
+           "population_proportions"]
+    smo = ["smoothed_column_proportions", "smoothed_column_percentages", "smoothed_column_index",
+           "smoothed_columns_scale_mean"]
+    if with_mean:
+        uns.append("means")
+        smo.append("smoothed_means")
+    return uns, smo
+
+
+def read_order(rng, strand, with_mean):
+    """seeded order in which B's outputs are read: all smoothed ones first (the smoothed scale mean
+    leading in half of those), all unsmoothed ones first, or interleaved at random"""
+    uns, smo = output_names(strand, with_mean)
+    uns, smo = list(uns), list(smo)
+    mode = rng.choice(["smoothed_first", "smoothed_first", "unsmoothed_first", "shuffled"])
+    rng.shuffle(uns)
+    rng.shuffle(smo)
+    if mode == "smoothed_first":
+        if "smoothed_columns_scale_mean" in smo and rng.random() < 0.5:
+            smo.remove("smoothed_columns_scale_mean")
+            smo.insert(0, "smoothed_columns_scale_mean")
+        order = smo + uns
+    elif mode == "unsmoothed_first":
+        order = uns + smo
+    else:
+        order = uns + smo
+        rng.shuffle(order)
+    return mode, order
 
 
 def raw_window(case):
@@ -74,25 +126,29 @@ def raw_window(case):
     return None if w in ("absent", None) else int(w)
 
 
+def _snap(r):
+    """guarded read result with its value copied (a later in-place edit must not reach it)"""
+    if r[0] == "ok" and isinstance(r[1], np.ndarray):
+        return ("ok", np.array(r[1], copy=True))
+    return r
+
+
 def impl_run(case):
-    """Read unsmoothed (run A) and smoothed (run B) public values."""
+    """Unsmoothed values of fresh partitions (A0 without, A with the transforms) and everything,
+    in the case's read order, on ONE partition B (then re-read: B2)."""
     out = {}
-    A = impl.partition(case["response"], None)
+    uns, smo = output_names(case["strand"], case["with_mean"])
+    orders = ["row_order"] if case["strand"] else ["row_order", "column_order"]
+    order = case.get("read_order") or (uns + smo)
+    A0 = impl.partition(case["response"], None)
+    A = impl.partition(case["response"], case["transforms"])
     B = impl.partition(case["response"], case["transforms"])
-    if case["strand"]:
-        names = ["means", "row_order"]
-        namesB = ["smoothed_means", "row_order"]
-    else:
-        names = ["column_proportions", "column_index", "row_order", "column_order",
-                 "columns_scale_mean"]
-        namesB = ["smoothed_column_proportions", "smoothed_column_percentages",
-                  "smoothed_column_index", "smoothed_columns_scale_mean",
-                  "row_order", "column_order"]
-        if case["with_mean"]:
-            names.append("means")
-            namesB.append("smoothed_means")
-    out["A"] = {n: impl.get(A, n) for n in names}
-    out["B"] = {n: impl.get(B, n) for n in namesB}
+    out["A0"] = {n: _snap(impl.get(A0, n)) for n in uns}
+    out["A"] = {n: _snap(impl.get(A, n)) for n in uns + orders}
+    out["B"] = {}
+    for n in list(order) + orders:
+        out["B"][n] = _snap(impl.get(B, n))
+    out["B2"] = {n: _snap(impl.get(B, n)) for n in order}
     out["dims"] = impl.dims_info(A)
     if not case["strand"]:
         out["row_numeric"] = [float(x) for x in A._dimensions[0].numeric_values]
@@ -155,7 +211,49 @@ def build_jobs(case, io):
     return jobs
 
 
+def _same(x, y):
+    """two guarded reads of the same deterministic computation"""
+    if x[0] != y[0]:
+        return False
+    if x[0] != "ok":
+        return x[1] == y[1]
+    a, b = x[1], y[1]
+    if a is None or b is None:
+        return a is None and b is None
+    a, b = np.asarray(a, dtype=float), np.asarray(b, dtype=float)
+    return a.shape == b.shape and bool(np.allclose(a, b, rtol=1e-12, atol=0.0, equal_nan=True))
+
+
+def _short(r):
+    return r[1] if r[0] == "ok" else list(r)
+
+
+def aliasing_oracles(case, io):
+    """(what, detail) list: the unsmoothed outputs of the partition that ALSO served smoothed ones
+    (B, in case['read_order']) against fresh partitions; re-reads of B against its first reads"""
+    fails = []
+    uns, _smo = output_names(case["strand"], case["with_mean"])
+    order = case.get("read_order")
+    for n in uns:
+        if not _same(io["B"][n], io["A"][n]):
+            fails.append(("aliasing." + n, {"read_order": order, "same_partition_as_smoothed_reads": _short(io["B"][n]),
+                                            "fresh_partition": _short(io["A"][n])}))
+        if not _same(io["A"][n], io["A0"][n]):
+            fails.append(("smoother-spec-changes-unsmoothed." + n,
+                          {"with_smoother_transform": _short(io["A"][n]), "without": _short(io["A0"][n])}))
+    for n, r2 in io["B2"].items():
+        if not _same(r2, io["B"][n]):
+            fails.append(("reread." + n, {"read_order": order, "first_read": _short(io["B"][n]),
+                                          "second_read": _short(r2)}))
+    return fails
+
+
 def compare(case, io, jobs, results, rep):
+    """Model results vs run B, then the aliasing oracles.  Returns list of (what, detail)."""
+    return compare_model(case, io, jobs, results, rep) + aliasing_oracles(case, io)
+
+
+def compare_model(case, io, jobs, results, rep):
     """Compare model results with run B.  Returns list of (what, detail)."""
     fails = []
     B = io["B"]
@@ -261,6 +359,9 @@ def run(tier, seed):
         rep.dist("cat_date" if case["cat_date"] else "not_cat_date")
         rep.dist("window=%s" % (case["window"],))
         rep.dist("smoothable" if nt else "guarded")
+        rep.dist("read_order=" + case["read_mode"])
+        if not case["strand"] and case["read_order"] and case["read_order"][0] == "smoothed_columns_scale_mean":
+            rep.dist("read_order: smoothed_columns_scale_mean before everything else")
         if nt:
             rep.sample({"window": case["window"], "n_periods": case["n_periods"],
                         "strand": case["strand"], "dimtypes": io["dimtypes"],
@@ -269,16 +370,22 @@ def run(tier, seed):
             ctx = {"what": what, "window": case["window"]}
             if what == "smoothed_columns_scale_mean":
                 ctx["inserted"] = detail.get("inserted")
-            rep.violation("impl-vs-model", _replayable(case), dict(detail, what=what), ctx)
+            kind = "impl-vs-property" if what.split(".")[0] in (
+                "aliasing", "reread", "smoother-spec-changes-unsmoothed") else "impl-vs-model"
+            rep.violation(kind, _replayable(case), dict(detail, what=what), ctx)
     rep.cov["rule"] = (
         "cases from random.Random(seed): CAT|MR x CAT_DATE|CAT slices and CAT_DATE|CAT strands "
         "with dyadic weights, row/column subtotals, optional mean measure, smoother window in "
         "{absent,null,-1..10}; non-trivial = categorical-date with 2 <= w <= periods (smoothing "
-        "actually happens); distinct by content hash of response+transforms")
+        "actually happens); distinct by content hash of response+transforms; per case a seeded read order of the "
+        "smoothed and unsmoothed outputs on ONE partition (smoothed first - half of them with the smoothed scale "
+        "mean leading -, unsmoothed first, shuffled), compared with fresh partitions that serve only unsmoothed outputs")
     rep.cov["coq_eval_seconds"] = round(coq_s, 2)
     rep.cov["model_terms_evaluated"] = len(terms)
     rep.assumptions = [
-        "unsmoothed inputs of the step are the implementation's own public values (C03/C16/C01 own them)",
+        "unsmoothed inputs of the step are the implementation's own public values (C03/C16/C01 own them), read from "
+        "a FRESH partition (same transforms, pristine copies) that is never asked for a smoothed output",
+        "two partitions built from equal arguments compute bit-identical unsmoothed values (compared with 1e-12 rel.)",
         "float64 vs exact rationals: relative tolerance 1e-9",
     ]
     return rep.finish("proof", ob, trusted_base=core.TRUSTED_BASE_COMMON + [
@@ -290,7 +397,8 @@ def _replayable(case):
     return {"response": case["response"], "transforms": case["transforms"],
             "with_mean": case["with_mean"],
             "strand": case["strand"], "window": case["window"], "cat_date": case["cat_date"],
-            "n_periods": case["n_periods"], "k": case["k"]}
+            "n_periods": case["n_periods"], "k": case["k"],
+            "read_mode": case.get("read_mode"), "read_order": case.get("read_order")}
 
 
 def replay(path):
